@@ -358,7 +358,13 @@ func projS(t Type, v reflect.Value, _ bool) any {
 		return []any{ints(b.Bytes), float64(b.BitLength)}
 	case "time":
 		// "times up to the second": the instant, expressed in UTC (expected and decoded alike)
-		x := v.Interface().(time.Time).UTC()
+		// (a zone's sub-minute part cannot be written as +-hhmm: the representable instant is the one
+		// of the local fields in the zone truncated to minutes, ASN1Marshal.tla ZoneMin / ToUTC)
+		x := v.Interface().(time.Time)
+		if _, zo := x.Zone(); zo%60 != 0 {
+			x = x.Add(time.Duration(zo%60) * time.Second)
+		}
+		x = x.UTC()
 		y, mo, d := x.Date()
 		h, mi, s := x.Clock()
 		_, off := x.Zone()
@@ -865,6 +871,9 @@ func randomValue(rng *rand.Rand, t Type) json.RawMessage {
 		off := 0
 		if rng.Intn(4) == 0 {
 			off = (rng.Intn(2*14*60) - 14*60) * 60
+			if rng.Intn(4) == 0 { // zone with a sub-minute part (local mean time zones)
+				off = rng.Intn(2*3600) - 3600
+			}
 		}
 		return j([]int{y, 1 + rng.Intn(12), 1 + rng.Intn(28), rng.Intn(24), rng.Intn(60), rng.Intn(60), off})
 	case "raw":
